@@ -225,10 +225,53 @@ def check_protocol(ctx, model, clauses):
                     if once('R10-validate-before-install', 'dynamic install'):
                         ctx.violation('R10-validate-before-install', fi, st, 'whatever the module namespace happens to hold is installed (the generate_for_pack / generate_for_unpack options are not consulted): a function left there by an earlier same-named module is installed although this declaration did not generate it', line, clause='V')
                     continue
+                if m is None and isinstance(v, ast.Call) and isinstance(v.func, ast.Attribute) and canon(v.func.value) == 'self' and fi.cls is not None \
+                        and v.func.attr in fi.cls.methods and any(model.sym(a) for a in v.args):
+                    # Round 9.  a wrapper made by a method of the generator around the module: if the
+                    # function it returns looks the generated function up *in the module when it is
+                    # called*, a module that came from load_module() -- the sys.modules object that
+                    # later loads of the file re-execute in place -- gives it another declaration's code
+                    wfi = fi.cls.methods[v.func.attr]
+                    idx = next(i for i, a in enumerate(v.args) if model.sym(a))
+                    ps = [a.arg for a in wfi.node.args.args][1:]
+                    late = []
+                    if idx < len(ps):
+                        for inner in ast.walk(wfi.node):
+                            if inner is not wfi.node and isinstance(inner, (ast.FunctionDef, ast.Lambda)):
+                                for x in ast.walk(inner):
+                                    if isinstance(x, ast.Attribute) and isinstance(x.value, ast.Name) and x.value.id == ps[idx] and x.attr in ('pack_impl', 'unpack_impl'):
+                                        late.append(x)
+                    kind_ = model.kind(v.args[idx])
+                    if once('R10-validate-before-install', st[:160]):
+                        if late and kind_ == 'load':
+                            ctx.violation('R10-validate-before-install', fi, st[:200], 'the installed wrapper (%s) reads %s in the module each time it is called: the module came from load_module(), the sys.modules object that every later load of that file re-executes in place, so an earlier class runs the code of a later same-named declaration' % (wfi.qual, canon(late[0])), line, clause='V', witness=True)
+                        elif late:
+                            ctx.holds('R10-validate-before-install', fi, st[:200], 'the wrapper looks the function up at call time in a module made in memory for this class alone', line, clause='V')
+                        else:
+                            ctx.undecided('R10-validate-before-install', fi, st[:200], 'the installed function is made by %s: cannot see what it runs' % wfi.qual, line, clause='V')
+                    continue
                 if m is not None and not model.sym(m) and _from_process_memo(ctx.repo, fi, m):
                     # functions of a module remembered from an earlier definition in this process
                     if once('R10-validate-before-install', st):
                         ctx.violation('R10-validate-before-install', fi, st[:200], 'the installed function comes from a table that outlives the class definition (a module kept from an earlier definition in this process), looked up by a key that is not the cookie of the text generated now: a same-named class declared differently gets the earlier code', line, clause='V', witness=True)
+                    continue
+                if m is not None and not model.sym(m) and _class_level_table(ctx.repo, fi, m) is not None:
+                    # Round 9.  a table on the generator class: it outlives the definition.  What
+                    # it may keep is a module made in memory from this run's text; a module that
+                    # came from load_module() is the sys.modules object that every later load of
+                    # that file re-executes in place -- it changes under the table
+                    tbl = _class_level_table(ctx.repo, fi, m)
+                    kinds_ = set()
+                    for p2 in model.paths:
+                        for e2 in p2.all_effects():
+                            if e2.kind == 'store_sub' and canon(e2.obj) in ('self.%s' % tbl, '%s.%s' % (fi.cls.name if fi.cls else '', tbl), 'type(self).%s' % tbl, 'self.__class__.%s' % tbl):
+                                s2 = next((n for n in ast.walk(e2.value) if model.sym(n)), None) if e2.value is not None else None
+                                kinds_.add(model.kind(s2) if s2 is not None else '?')
+                    if once('R10-validate-before-install', st[:120]):
+                        if 'load' in kinds_:
+                            ctx.violation('R10-validate-before-install', fi, st[:200], 'the installed function comes from a table that outlives the class definition and that keeps modules obtained from load_module(): that is the sys.modules object every later load of the file re-executes in place, so the entry found under this cookie may by now hold the code of another declaration -- and it is installed without comparing its cookie', line, clause='V', witness=True)
+                        else:
+                            ctx.undecided('R10-validate-before-install', fi, st[:200], 'the installed function comes from a table on the generator class (kept: %s)' % sorted(kinds_), line, clause='V')
                     continue
                 if m is None or not model.sym(m):
                     if once('R10-validate-before-install', st):
@@ -378,6 +421,24 @@ def foreign_operands(model, p, evs, src):
                 continue
         bad.append(op)
     return bad
+
+
+def _class_level_table(repo, fi, m):
+    """name T when ``m`` is ``self.T.get(..)`` / ``self.T[..]`` / ``Cls.T...`` and T is a dict
+    assigned in the body of the class the function belongs to"""
+    if fi.cls is None:
+        return None
+    recv = None
+    if isinstance(m, ast.Call) and isinstance(m.func, ast.Attribute) and m.func.attr in ('get', 'setdefault', 'pop'):
+        recv = m.func.value
+    elif isinstance(m, ast.Subscript):
+        recv = m.value
+    if not (isinstance(recv, ast.Attribute) and canon(recv.value) in ('self', fi.cls.name, 'type(self)', 'self.__class__', 'cls')):
+        return None
+    v = fi.cls.attrs.get(recv.attr)
+    if isinstance(v, ast.Dict) or (isinstance(v, ast.Call) and (call_name(v) or '').split('.')[-1] in ('dict', 'OrderedDict', 'WeakValueDictionary', 'defaultdict')):
+        return recv.attr
+    return None
 
 
 def _from_process_memo(repo, fi, m):
